@@ -180,7 +180,7 @@ pub fn run(thorough: bool) -> Vec<Part> {
     if small_build() {
         let mut part = Part::new("C01", "alphabet-s", "model_checking");
         part.assume("S-build: BUFFER_SIZE = 32 (cfg micro_http_verif_small), payload limit 40; streams = all sequences over the piece alphabet, any length, grammar-guided (body pieces only while a body is awaited)");
-        part.assume("reads returning no data (EAGAIN/EINTR) are not "the first error": they may report StreamReadError or Ok, deliver nothing, and must not change what is delivered afterwards");
+        part.assume("reads returning no data (EAGAIN/EINTR) are not 'the first error': they may report StreamReadError or Ok, deliver nothing, and must not change what is delivered afterwards");
         part.assume("error kinds are compared by the element at fault (request line / method / URI / version / header / payload(L,n)), never by message text");
         let mut cfg = Cfg::base("C01", "alphabet", alphabet::small(if thorough { 1 } else { 0 }), 40);
         cfg.eof = thorough;
